@@ -23,15 +23,27 @@ LEVEL_TEXT = (
     "logged in), C03_guarded_verb_refused, C03_step_login / C03_reuser_drops / C03_bad_pass_never_authorises (one step, ANY world) and "
     "C03_logged_implies_password_supplied (histories of any length). The code is tied by C03_source_obligations: the verb table, "
     "decorator stacks and pre-login handler footprints are regenerated from server.py by py2v and the closed checks are recomputed by "
-    "vm_compute; behaviourally by bounded-exhaustive and random histories against the real server with a spying backend."
+    "vm_compute; behaviourally by bounded-exhaustive and random histories against the real server with a spying backend. "
+    "Round 3: C03_login_handlers_are_reference (today's pass_ / user translate to the reference programs: their only awaits are "
+    "authenticate / notify_logout, get_user); the same programs split at those awaits: C03_suspended_login_handlers_partial (nothing "
+    "handled at the await => the sequential bodies), C03_suspended_pass_authenticated_the_old_user, and the refutations "
+    "C03_pipelined_user_during_pass_refuted / C03_pipelined_user_during_user_refuted (finding F20: with a user manager whose "
+    "authenticate()/get_user() really suspend, a pipelined USER handled at the await leaves the session logged in as a user whose "
+    "password was not supplied; replayed on the real server every run). Transfers served after the command: "
+    "C03_scheduled_worker_fixed_at_command_time and C03_served_object_independent_of_later_session (the object is resolved under the "
+    "issuing login; what is served does not depend on the session of the moment of serving)."
 )
 LEVEL_NOTE = (
     "Trusted: Coq kernel, py2v (footprint extraction is syntactic: connection.<attr> writes, path_io calls, worker spawns), extraction, "
-    "simnet. Modelled not verified: custom user managers; pipelined commands; handler bodies not known to the model are covered only by "
-    "the guard-first rule (their bodies never run before login)."
+    "simnet. Modelled not verified: custom user managers other than suspension (the harness runs MemoryUserManager and subclasses whose "
+    "authenticate()/get_user() suspend; the model lets an arbitrary world transformer run at the two awaits); pipelining is exercised for "
+    "login commands only; handler bodies not known to the model are covered only by the guard-first rule (their bodies never run before "
+    "login). A NEW constructor option that adds a suspension point is invisible to the histories while it is off (seed C03-r2-2): it is "
+    "flagged structurally by C03_login_handlers_are_reference."
 )
 TRUSTED = ["py2v footprint extraction for quit/rest/syst/appe/cdup/user/pass_ (syntactic)"]
-ASSUMPTIONS = ["sequential sessions (one command at a time)", "MemoryUserManager semantics (custom user managers are outside the model)"]
+ASSUMPTIONS = ["the sequential theorems assume no handler runs at another handler's await (true for the shipped MemoryUserManager; finding F20 otherwise)",
+               "MemoryUserManager lookup / password semantics (a custom manager may decide differently; only its suspension is modelled)"]
 
 VERBS = ["PWD", "CWD", "CDUP", "MKD", "RMD", "DELE", "RNFR", "RNTO", "MLST", "LIST", "MLSD", "RETR", "STOR", "APPE", "TYPE", "PBSZ",
          "PROT", "PASV", "EPSV", "ABOR", "REST", "SYST", "FOO"]
@@ -153,6 +165,412 @@ def check_history(ctx, table, h, mo):
         prev = pr
 
 
+# ------------------------------------------------------------------------------------------------------------
+# (d) commands BETWEEN the 150 mark of a transfer and the arrival of its data connection
+D_USERS = [
+    {"login": "guest", "password": None, "home": "/pub"},
+    {"login": "admin", "password": "adminpw", "home": "/adm"},
+    {"login": "bob", "password": None, "home": "/bob"},
+]
+D_TREE = {
+    "pub": {"me": b"guest-data", "readme": b"public", "sub": {"n": b"1"}},
+    "adm": {"me": b"admin-data", "payroll": b"SECRET", "id_rsa": b"key", "sub": {"s": b"2"}},
+    "bob": {"me": b"bob-data", "notes": b"bob's", "sub": {}},
+}
+D_LOGINS = {
+    "guest": [("USER", "guest")],
+    "admin": [("USER", "admin"), ("PASS", "adminpw")],
+    "bob": [("USER", "bob")],
+    "admin-no-pass": [("USER", "admin")],                      # 331 only: NOT logged in
+    "admin-bad-pass": [("USER", "admin"), ("PASS", "nope")],   # 530: NOT logged in
+    "dropped": [("USER", "guest"), ("USER", "admin")],         # a completed login discarded by USER again
+    "nobody": [],
+}
+D_XFERS = [("LIST", "", None), ("MLSD", "", None), ("LIST", "sub", None), ("RETR", "me", None), ("STOR", "up", b"PAYLOAD"), ("APPE", "me", b"+more")]
+D_BETWEEN = [
+    [],
+    [("USER", "admin")],                       # 331: the previous login is gone, nobody is logged in
+    [("USER", "admin"), ("PASS", "nope")],     # 530
+    [("USER", "admin"), ("PASS", "adminpw")],  # a complete re-login as somebody else
+    [("USER", "bob")],                         # 230 at once: somebody else, another home
+    [("USER", "guest")],
+    [("USER", "nobody")],                      # 530: unknown
+    [("CWD", "sub")],
+    [("USER", "admin"), ("PWD", "")],
+]
+D_PAYLOAD_VERBS = ("STOR", "APPE")
+
+
+def d_resolve(cwd, arg):
+    parts = [] if arg.startswith("/") else [p for p in cwd.split("/") if p]
+    for seg in arg.split("/"):
+        if seg in ("", "."):
+            continue
+        if seg == "..":
+            parts = parts[:-1]
+        else:
+            parts.append(seg)
+    return parts
+
+
+def d_get(tree, parts):
+    t = tree
+    for p in parts:
+        if not isinstance(t, dict) or p not in t:
+            return None
+        t = t[p]
+    return t
+
+
+def run_deferred(login, xfer, between, user_manager=None):
+    """one session: <login>; PASV; <xfer>; <between ...>; THEN the data connection; PWD.  The spying backend log is
+    cut into phases.  An exception inside the (mutated) implementation is part of the observation."""
+    log = []
+    ob = {"login": [], "between": [], "probes": []}
+
+    async def main(net):
+        server = ftpsim.make_server(D_USERS, D_TREE, "memory", None, wait_future_timeout=5)
+        server.path_io_factory.factory = spy_factory(log)
+        await server.start("127.0.0.1", ftpsim.PORT)
+        s = ftpsim.Session(net, server)
+        await s.start()
+        raw = s.raw
+        for v, a in login:
+            ob["login"].append(simnet.final_codes(await raw.send(f"{v} {a}".rstrip())))
+        ob["probe_login"] = s.probe()
+        pl = await raw.send("PASV")
+        ob["pasv"] = simnet.final_codes(pl)
+        port = ftpsim.parse_passive(pl)
+        ob["port"] = port
+        ob["calls_before"] = list(log)
+        mark = len(log)
+        verb, arg, payload = xfer
+        lines = await raw.send(f"{verb} {arg}".rstrip())
+        ob["codes"] = simnet.final_codes(lines)
+        ob["calls_request"] = log[mark:]
+        for v, a in between:
+            mark = len(log)
+            bl = await raw.send(f"{v} {a}".rstrip())
+            ob["between"].append({"codes": simnet.final_codes(bl), "calls": log[mark:], "probe": s.probe()})
+        mark = len(log)
+        data = b""
+        if port is not None:
+            try:
+                r, w = await net.open_connection("127.0.0.1", port)
+                if verb in D_PAYLOAD_VERBS and payload is not None:
+                    w.write(payload)
+                    w.close()
+                await net.settle()
+                data = bytes(r._buffer)
+                if not w.transport.is_closing():
+                    w.close()
+            except (ConnectionRefusedError, OSError) as e:
+                ob["data_error"] = repr(e)
+        await asyncio.sleep(6)  # let a worker still waiting for a data connection time out (425)
+        ob["after"] = simnet.final_codes(await raw.drain_replies())
+        ob["data"] = data
+        ob["calls_serving"] = log[mark:]
+        ob["probe_end"] = s.probe()
+        pw = await raw.send("PWD")
+        ob["pwd_codes"] = simnet.final_codes(pw)
+        ob["pwd"] = pw[-1][4:].strip().strip('"') if ob["pwd_codes"] == ["257"] else None
+        ob["ended"] = raw.eof
+        ob["tree"] = ftpsim.final_tree(server, "memory")
+        await server.close()
+
+    try:
+        simnet.run(main)
+    except Exception as e:  # noqa: BLE001 - observation; the search goes on
+        ob["error"] = repr(e)
+    return ob
+
+
+def d_rule(cmds, st=(None, False)):
+    for v, a in cmds:
+        st = login_oracle(D_USERS, st, v, a)
+    return st
+
+
+def deferred_oracle(login, xfer, between, ob):
+    """the property for one such session, stated independently -> list of (kind, detail)"""
+    if "error" in ob:
+        return [("driver-error", ob["error"])]
+    bad = []
+    verb, arg, payload = xfer
+    st0 = d_rule(login)
+    tree0 = ftpsim.canon_tree(D_TREE)
+    served = bool(ob["data"]) or bool(ob["calls_serving"]) or ob["tree"] != tree0
+    if not st0[1]:
+        # not logged in when the transfer command is sent: nothing at all may happen
+        if any(c[:1] in "123" for c in ob["codes"] + ob["pasv"]):
+            bad.append(("command-succeeded-before-login", f"{verb} {arg!r} / PASV after {login} answered {ob['codes']} / {ob['pasv']}"))
+        if ob["calls_before"] or ob["calls_request"] or ob["calls_serving"] or any(b["calls"] for b in ob["between"]) and not any(d_rule(login + between[: i + 1])[1] for i in range(len(between))):
+            bad.append(("backend-touched-before-login", f"backend calls without a completed login: {(ob['calls_before'] + ob['calls_request'] + ob['calls_serving'])[:4]}"))
+        if ob["data"]:
+            bad.append(("served-before-login", f"{len(ob['data'])} bytes on a data connection of a session that never logged in"))
+        return bad
+    me = D_USERS[st0[0]]
+    if ob["codes"] != ["150"]:
+        return bad  # refused for another reason: nothing to say here (C05 compares the codes with the model)
+    target = d_resolve(me["home"], arg)
+    tpath = "/" + "/".join(target)
+    old = d_get(D_TREE, target)
+    # login state after every in-between command follows the rule; a command sent while not logged in touches nothing
+    st = st0
+    for i, ((v, a), b) in enumerate(zip(between, ob["between"])):
+        was_logged = st[1]
+        st = login_oracle(D_USERS, st, v, a)
+        pr = b["probe"]
+        if pr is not None:
+            want = (D_USERS[st[0]]["login"] if st[0] is not None else None, st[1])
+            got = (pr["user"] if pr["has_user"] else None, pr["logged"])
+            if got != want:
+                bad.append(("login-state-differs-from-rule", f"after {between[: i + 1]} (transfer pending): rule {want}, server {got}"))
+        if not was_logged and v.lower() not in ("user", "pass") and b["calls"]:
+            bad.append(("backend-touched-before-login", f"{v} {a!r} while nobody is logged in (transfer pending): {b['calls'][:3]}"))
+    # what is served is the object the ISSUING login was entitled to (RFC 959: a transfer in progress completes under the
+    # old access control parameters) - never an object resolved under the login / directory of the moment of serving
+    touched = [p for n, p in ob["calls_serving"] if n in ("_open", "list")]
+    if any(p != tpath for p in touched):
+        bad.append(("served-under-another-login", f"{verb} {arg!r} was accepted for {me['login']} as {tpath!r}; after {between} the worker handed {touched} to the backend"))
+    foreign = [p for n, p in ob["calls_serving"] if p and not (p == tpath or p.startswith(tpath.rstrip("/") + "/"))]
+    if foreign and not any(k == "served-under-another-login" for k, _ in bad):
+        bad.append(("served-under-another-login", f"{verb} {arg!r} accepted for {me['login']} as {tpath!r}; after {between} the backend was asked about {foreign[:4]}"))
+    done = any(c in ("226", "200") for c in ob["after"])
+    if verb == "RETR" and done and isinstance(old, bytes) and ob["data"] != old:
+        bad.append(("served-under-another-login", f"RETR {arg!r} accepted for {me['login']} ({tpath}): after {between} the data connection delivered {ob['data']!r}, that file holds {old!r}"))
+    if verb in ("LIST", "MLSD") and done and isinstance(old, dict):
+        try:
+            names = sorted(n for n, _, _ in ftpsim.parse_listing(ob["data"], verb.lower()))
+        except Exception:  # noqa: BLE001
+            names = ["<unparsable>"]
+        if names != sorted(old):
+            bad.append(("served-under-another-login", f"{verb} {arg!r} accepted for {me['login']} ({tpath}): after {between} the listing shows {names}, that directory holds {sorted(old)}"))
+    if verb in D_PAYLOAD_VERBS:
+        if done:
+            content = payload if verb == "STOR" or not isinstance(old, bytes) else old + payload
+            want = json_tree_put(D_TREE, target, content)
+            if ob["tree"] != ftpsim.canon_tree(want):
+                bad.append(("served-under-another-login", f"{verb} {arg!r} accepted for {me['login']} as {tpath!r}: after {between} and the upload the tree is not the initial one with {tpath!r} written"))
+        elif ob["tree"] != tree0:
+            bad.append(("served-under-another-login", f"{verb} {arg!r} did not complete ({ob['after']}) but the tree changed"))
+    elif ob["tree"] != tree0:
+        bad.append(("tree-changed-by-reading-transfer", f"{verb} {arg!r}: the tree changed"))
+    # at the end the session is what the rule says; a dropped login stays dropped
+    pr = ob["probe_end"]
+    if pr is not None:
+        want = (D_USERS[st[0]]["login"] if st[0] is not None else None, st[1])
+        got = (pr["user"] if pr["has_user"] else None, pr["logged"])
+        if got != want:
+            bad.append(("login-state-differs-from-rule", f"after the pending transfer was served: rule {want}, server {got}"))
+        if not st[1] and ob["pwd_codes"] == ["257"]:
+            bad.append(("command-succeeded-before-login", f"PWD answered 257 after {login + between}"))
+    return bad
+
+
+def json_tree_put(tree, parts, value):
+    import copy
+
+    t = copy.deepcopy(tree)
+    node = t
+    for p in parts[:-1]:
+        node = node[p]
+    node[parts[-1]] = value
+    return t
+
+
+def deferred_cases(rng, thorough):
+    cases = []
+    for login in ("guest", "admin", "bob"):
+        for xfer in D_XFERS:
+            for between in D_BETWEEN:
+                cases.append((login, xfer, between))
+    for login in ("admin-no-pass", "admin-bad-pass", "dropped", "nobody"):
+        for xfer in D_XFERS:
+            cases.append((login, xfer, []))
+            cases.append((login, xfer, [("USER", "admin")]))
+    if thorough:
+        return cases
+    # quick: guest x everything; the other logins see every between and every transfer once (round-robin)
+    return [c for i, c in enumerate(cases) if c[0] in ("guest", "admin-no-pass", "dropped") or i % 4 == 0]
+
+
+def stream_deferred(ctx):
+    cases = deferred_cases(ctx.rng, ctx.tier == "thorough")
+    n150 = 0
+    for login, xfer, between in cases:
+        ctx.case(("deferred", login, xfer[:2], repr(between)))
+        ctx.traces_impl += 1
+        ob = run_deferred(D_LOGINS[login], xfer, between)
+        n150 += ob.get("codes") == ["150"]
+        for kind, detail in deferred_oracle(D_LOGINS[login], xfer, between, ob):
+            report(ctx, f"property oracle (command between 150 and the data connection): {detail}",
+                   {"key": f"c03-deferred-{kind}-{xfer[0].lower()}", "deferred": True, "login": login,
+                    "xfer": [xfer[0], xfer[1], xfer[2].decode("latin-1") if xfer[2] is not None else None], "between": [list(b) for b in between]})
+    ctx.count("deferred_sessions", len(cases))
+    ctx.count("deferred_150_then_between", n150)
+
+
+# ------------------------------------------------------------------------------------------------------------
+# (p) PIPELINED login commands (several commands in one write) with user managers that do / do not suspend
+P_USERS = [
+    {"login": "alice", "password": "alicepw", "home": "/pub"},
+    {"login": "admin", "password": "adminpw", "home": "/adm"},
+    {"login": "bob", "password": None, "home": "/bob"},
+]
+P_UMS = {
+    "default": (None, None),        # MemoryUserManager as shipped: no coroutine of it ever suspends
+    "slow-auth": (0.1, None),       # authenticate() really waits (database / PAM / network lookup)
+    "slow-both": (0.1, 0.1),        # get_user() waits too
+    "slow-lookup": (None, 0.1),
+}
+P_BURSTS = [
+    [("PASS", "alicepw"), ("USER", "admin")],
+    [("PASS", "alicepw"), ("USER", "admin"), ("PWD", "")],
+    [("PASS", "alicepw"), ("USER", "alice")],
+    [("PASS", "alicepw"), ("USER", "bob")],
+    [("PASS", "alicepw"), ("USER", "nobody")],
+    [("PASS", "wrong"), ("USER", "admin")],
+    [("PASS", "wrong"), ("PASS", "alicepw")],
+    [("PASS", "alicepw"), ("PASS", "wrong")],
+    [("USER", "admin"), ("PASS", "alicepw")],
+    [("USER", "admin"), ("PASS", "adminpw")],
+    [("USER", "admin"), ("PASS", "adminpw"), ("USER", "alice")],
+    [("USER", "bob"), ("USER", "admin"), ("PASS", "x")],
+    [("PASS", "alicepw"), ("USER", "admin"), ("PASS", "alicepw")],
+    [("PASS", "alicepw"), ("PWD", ""), ("USER", "admin"), ("PWD", "")],
+]
+
+
+def suspending_um(users, auth_delay, lookup_delay):
+    class UM(aioftp.MemoryUserManager):
+        """MemoryUserManager whose coroutines really suspend, as any manager backed by a database or a service does"""
+
+        async def authenticate(self, user, password):
+            if auth_delay:
+                await asyncio.sleep(auth_delay)
+            return await super().authenticate(user, password)
+
+        async def get_user(self, login):
+            if lookup_delay:
+                await asyncio.sleep(lookup_delay)
+            return await super().get_user(login)
+
+    return UM(users)
+
+
+def run_pipelined(um_name, pre, burst):
+    log = []
+    ob = {"pre": []}
+
+    async def main(net):
+        server = ftpsim.make_server(P_USERS, D_TREE, "memory", None, wait_future_timeout=1)
+        a, l = P_UMS[um_name]
+        if a or l:
+            server.user_manager = suspending_um(list(server.user_manager.users), a, l)
+        server.path_io_factory.factory = spy_factory(log)
+        await server.start("127.0.0.1", ftpsim.PORT)
+        s = ftpsim.Session(net, server)
+        await s.start()
+        raw = s.raw
+        for v, a_ in pre:
+            lines = await raw.send(f"{v} {a_}".rstrip())
+            if not simnet.final_codes(lines):  # the user manager is still thinking: one command at a time means waiting for it
+                await asyncio.sleep(1)
+                lines += await raw.drain_replies()
+            ob["pre"].append(simnet.final_codes(lines))
+        mark = len(log)
+        raw.writer.write("".join(f"{v} {a_}".rstrip() + "\r\n" for v, a_ in burst).encode())
+        await asyncio.sleep(3)
+        ob["codes"] = simnet.final_codes(await raw.drain_replies())
+        ob["probe"] = s.probe()
+        ob["calls"] = log[mark:]
+        mark = len(log)
+        pw = await raw.send("PWD")
+        ob["pwd_codes"] = simnet.final_codes(pw)
+        ob["pwd"] = pw[-1][4:].strip().strip('"') if ob["pwd_codes"] == ["257"] else None
+        ob["ended"] = raw.eof
+        await server.close()
+
+    try:
+        simnet.run(main)
+    except Exception as e:  # noqa: BLE001
+        ob["error"] = repr(e)
+    return ob
+
+
+def pipelined_oracle(pre, burst, ob):
+    """pipelined commands are still a SEQUENCE of commands: the login rule applies to them in the order sent.
+    Judged: the state the burst leaves behind (who is identified, whether logged in), never the reply texts."""
+    if "error" in ob:
+        return [("driver-error", ob["error"])]
+    st = (None, False)
+    for v, a in list(pre) + list(burst):
+        st = login_oracle(P_USERS, st, v, a)
+    pr = ob["probe"]
+    if pr is None:
+        return []
+    bad = []
+    want = (P_USERS[st[0]]["login"] if st[0] is not None else None, st[1])
+    got = (pr["user"] if pr["has_user"] else None, pr["logged"])
+    if got[1]:
+        # logged in: as whom, and was THAT user's password supplied after that user was named?
+        u = next((x for x in P_USERS if x["login"] == got[0]), None)
+        supplied = False
+        named = False
+        for v, a in list(pre) + list(burst):
+            if v == "USER":
+                named = a == got[0]
+                supplied = named and u is not None and u["password"] is None
+            elif v == "PASS" and named and u is not None and u["password"] == a:
+                supplied = True
+        if u is None or not supplied:
+            bad.append(("authorised-without-password", f"{pre} then {burst} in ONE write: logged in as {got[0]!r} ({ob['pwd']}), whose password was not supplied after naming that user"))
+    # C03 is a safety property: only states MORE authorised than the rule allows are violations (a pipelined PASS that
+    # is turned down because the USER before it is still being looked up is a conformance matter, not an authorisation)
+    if not bad and got[1] and (not want[1] or got[0] != want[0]):
+        bad.append(("authorised-beyond-rule", f"{pre} then {burst} in one write: rule {want}, server {got}"))
+    if not st[1] and not got[1] and ob["pwd_codes"] == ["257"]:
+        bad.append(("command-succeeded-before-login", "PWD answered 257"))
+    return bad
+
+
+def stream_pipelined(ctx):
+    pre = [("USER", "alice")]
+    n = 0
+    for um in P_UMS:
+        for burst in P_BURSTS:
+            ctx.case(("pipelined", um, repr(burst)))
+            ctx.traces_impl += 1
+            n += 1
+            ob = run_pipelined(um, pre, burst)
+            for kind, detail in pipelined_oracle(pre, burst, ob):
+                verbs = [v for v, _ in burst]
+                # one mechanism, one key: a USER handled while an earlier PASS of the same write is still being answered
+                overtaken = any(v == "PASS" and "USER" in verbs[i + 1:] for i, v in enumerate(verbs))
+                if overtaken:
+                    shape = "user-handled-during-pass"
+                elif verbs.count("USER") >= 2:
+                    shape = "user-handled-during-user"
+                else:
+                    shape = "-".join(v.lower() for v in verbs)
+                tag = "default-um" if um == "default" else "suspending-um"
+                report(ctx, f"property oracle (pipelined login, user manager {um}): {detail}",
+                       {"key": f"c03-pipelined-{tag}-{shape}", "kind": kind, "pipelined": True, "um": um, "pre": [list(x) for x in pre],
+                        "burst": [list(x) for x in burst], "codes": ob.get("codes")})
+    ctx.count("pipelined_sessions", n)
+
+
+_reported = {}
+
+
+def report(ctx, what, payload, per_key=3):
+    k = payload["key"]
+    _reported[k] = _reported.get(k, 0) + 1
+    if _reported[k] <= per_key:
+        ctx.violation(what, payload)
+
+
 def correspondence(ctx, budget=None):
     rng = ctx.rng
     thorough = ctx.tier == "thorough"
@@ -160,7 +578,12 @@ def correspondence(ctx, budget=None):
         "command histories over {USER known/unknown/password-less/password-protected/anonymous, PASS right/wrong/empty} x every other verb "
         "(fixed argument) x the data-connect pseudo-event: all histories of length <= 2 (quick) / <= 3 (thorough) followed by a probe verb, "
         "plus random histories of length <= 14, on two user tables (anonymous absent/present); the real server runs with a spying "
-        "MemoryPathIO subclass (every backend call logged) and the listener ledger of simnet. Non-trivial = distinct history."
+        "MemoryPathIO subclass (every backend call logged) and the listener ledger of simnet. (d) sessions with commands BETWEEN the "
+        "150 mark of LIST/MLSD/RETR/STOR/APPE and the arrival of its data connection (USER again to 331/530/230-as-somebody-else, full "
+        "re-login, CWD), for three issuing logins and four not-logged-in prefixes: what is served must be the object the ISSUING login was "
+        "entitled to, nothing for a session that never logged in. (p) login commands PIPELINED in one write under the shipped user manager "
+        "and under subclasses whose authenticate()/get_user() really suspend: the state left behind must be the login rule's. "
+        "Non-trivial = distinct history."
     )
     others = [(v, "d" if v not in ("REST", "TYPE", "PROT", "PBSZ", "EPSV", "PASV", "ABOR", "SYST", "PWD", "CDUP") else {"REST": "3", "TYPE": "I", "PROT": "P", "PBSZ": "0"}.get(v, "")) for v in VERBS]
     alpha = [(v, a, None) for v, a in LOGINS] + [(v, a, (b"x" if v in ("STOR", "APPE") else None)) for v, a in others]
@@ -201,6 +624,10 @@ def correspondence(ctx, budget=None):
     ctx.extra["vm_compute_crosscheck"] = {"cases": len(xcheck), "agree": ok}
     if not ok:
         ctx.obligation_broken("extraction-crosscheck", out)
+    if budget is None:
+        _reported.clear()
+        stream_deferred(ctx)
+        stream_pipelined(ctx)
 
 
 def search(ctx):
@@ -215,6 +642,27 @@ def search(ctx):
 
 def replay(ctx, data):
     r = data.get("replay", {})
+    if r.get("deferred"):
+        xfer = (r["xfer"][0], r["xfer"][1], r["xfer"][2].encode("latin-1") if r["xfer"][2] is not None else None)
+        between = [tuple(b) for b in r["between"]]
+        ob = run_deferred(D_LOGINS[r["login"]], xfer, between)
+        bad = deferred_oracle(D_LOGINS[r["login"]], xfer, between, ob)
+        print(D_LOGINS[r["login"]], "PASV", xfer[:2], "->", ob.get("codes"), "| between", between, "->", [b["codes"] for b in ob.get("between", [])],
+              "| data connection ->", ob.get("data"), ob.get("after"), "| serving calls", ob.get("calls_serving"))
+        for k, d in bad:
+            print("  ", k, ":", d)
+            ctx.violation(d, dict(r))
+        return not bad
+    if r.get("pipelined"):
+        pre = [tuple(x) for x in r["pre"]]
+        burst = [tuple(x) for x in r["burst"]]
+        ob = run_pipelined(r["um"], pre, burst)
+        bad = pipelined_oracle(pre, burst, ob)
+        print("user manager", r["um"], "|", pre, "then in one write", burst, "->", ob.get("codes"), "| state", ob.get("probe"), "| PWD", ob.get("pwd_codes"), ob.get("pwd"))
+        for k, d in bad:
+            print("  ", k, ":", d)
+            ctx.violation(d, dict(r))
+        return not bad
     if "history" not in r:
         print(data)
         return False
